@@ -610,6 +610,7 @@ func runCheck(spec *Spec, tier string) int {
 	printedKnown := map[string]bool{}
 	for _, v := range viols {
 		if seenKey[v.Key] {
+			os.Remove(v.Replay) // one replay file per distinct violation key
 			continue
 		}
 		seenKey[v.Key] = true
